@@ -53,8 +53,8 @@ fn same(a: &XTree, b: &XTree) -> Option<String> {
 
 // ---------------------------------------------------------------- (i) chunkings
 fn part_chunkings(ctx: &Ctx, info: &LangInfo, docs: &[Vec<u8>], big: &[Vec<u8>], idx: &mut usize, res: &mut ShardResult) {
-    let all_upto = if ctx.quick() { 12 } else { 14 };
-    let pairs_upto = if ctx.quick() { 48 } else { 64 };
+    let all_upto = if ctx.mini() { 7 } else if ctx.quick() { 12 } else { 14 };
+    let pairs_upto = if ctx.mini() { 14 } else if ctx.quick() { 48 } else { 64 };
     let mut parser = Parser::new();
     parser.set_language(&info.language).unwrap();
     for d in docs {
@@ -214,7 +214,7 @@ fn part_cancellation(ctx: &Ctx, info: &LangInfo, big: &[Vec<u8>], other_doc: &[u
         p0.set_language(&info.language).unwrap();
         let (_, k, _) = parse_cancelling(&mut p0, d, None, &[]);
         res.count("callbacks_in_reference_runs", k);
-        let pair_limit = if ctx.quick() { 40 } else { 150 };
+        let pair_limit = if ctx.mini() { 6 } else if ctx.quick() { 40 } else { 150 };
         let mut plans: Vec<Vec<u64>> = (1..=k).map(|i| vec![i]).collect();
         for i in 1..=k.min(pair_limit) { for j in i + 1..=k.min(pair_limit) { plans.push(vec![i, j]); } }
         for plan in plans {
@@ -360,14 +360,14 @@ pub fn worker(ctx: &Ctx, res: &mut ShardResult) {
     let mut idx = 0usize;
     for z in zoo.iter() {
         let info = build_info(z);
-        let k = if ctx.quick() { 3 } else { 4 };
+        let k = if ctx.mini() { 1 } else if ctx.quick() { 3 } else { 4 };
         let docs = crate::docs::docs(z, k);
         let big = big_docs(z.name);
         part_chunkings(ctx, &info, &docs, &big, &mut idx, res);
         part_encodings(ctx, &info, &docs, &mut idx, res);
         let other_doc = z.seeds.iter().filter(|s| s.len() > 3).next().map(|s| s.as_bytes().to_vec()).unwrap_or_default();
         part_cancellation(ctx, &info, &big, &other_doc, &mut idx, res);
-        let hist_docs: Vec<Vec<u8>> = z.seeds.iter().take(if ctx.quick() { 6 } else { 20 }).map(|s| s.as_bytes().to_vec()).collect();
+        let hist_docs: Vec<Vec<u8>> = z.seeds.iter().take(if ctx.mini() { 1 } else if ctx.quick() { 6 } else { 20 }).map(|s| s.as_bytes().to_vec()).collect();
         part_history(ctx, &info, &arith, &hist_docs, &other_doc, &big[0], &mut idx, res);
         if res.too_many() || ctx.out_of_time() { if ctx.out_of_time() { res.caps.push("wall-clock budget reached".into()); } return; }
     }
